@@ -177,6 +177,8 @@ static bool g_routes_all = true;
 static std::set<std::string> g_routes;
 static bool on(const std::string& r) { return g_routes_all || g_routes.count(r); }
 
+static bool g_last_case_has_dim_ge1 = false;  // samples written to the evidence are taken among such cases
+static void sample_case(const std::string& cs, size_t cap) { if (g_last_case_has_dim_ge1) vf::stats().sample(cs, cap); }
 static void account_expected(int n_points, const Bar& want, const Mat& m, double thr_oracle, int dim_max) {
   bool ge1 = false, finite = false, top = false;
   for (auto& i : want) {
@@ -184,6 +186,7 @@ static void account_expected(int n_points, const Bar& want, const Mat& m, double
     if (i.d != INF) finite = true;
     if (i.dim >= 2) top = true;
   }
+  g_last_case_has_dim_ge1 = ge1;
   vf::stats().add("ev.states");
   if (ge1 || finite) vf::stats().add("ev.nontrivial");
   if (ge1) vf::stats().add("expected.has_interval_dim_ge1");
@@ -507,7 +510,7 @@ int main(int argc, char** argv) {
           if (part == "matrix") run_dense_case(cs, m, nullptr, c);
           else if (part == "convert") run_convert_case(cs, m, c);
           else run_graph_case(cs, m, c);
-          vf::stats().sample(cs, 3);
+          sample_case(cs, 3);
         });
       }
       int k = 0;
@@ -536,7 +539,7 @@ int main(int argc, char** argv) {
         for_cfgs(g, n, [&](const Cfg& c) {
           std::string cs = pre + ";pts=" + ps + cfg_str(c);
           run_dense_case(cs, m, &tp, c);
-          vf::stats().sample(cs, 3);
+          sample_case(cs, 3);
         });
         return;
       }
@@ -570,7 +573,7 @@ int main(int argc, char** argv) {
           if (p != 2 && b2 != ref_barcode(me, INF, p, d)) vf::stats().add("expected.barcode_depends_on_modulus");
           run_graph_case(base + ";form=edge_list" + cfg_str(ce), me, ce);
           run_dense_case(base + ";form=dense" + cfg_str(cd), md, nullptr, cd);
-          vf::stats().sample(base + ";form=dense" + cfg_str(cd), 2);
+          sample_case(base + ";form=dense" + cfg_str(cd), 2);
           }
         }
       }
@@ -643,7 +646,7 @@ static void run_big_part(const vf::Args& a, const Grid& g, const std::string& pr
           Cfg c{"inf", cf.second, p};
           std::string cs = pre + ";N=" + std::to_string(N) + ";ids=" + vf::join(ids) + ";d=" + m.lower_str() + cfg_str(c);
           run_big_case(cs, N, ids, m, c);
-          vf::stats().sample(cs, 2);
+          sample_case(cs, 2);
         }
       }
       int q = 0;
